@@ -144,6 +144,10 @@ def corpus(tier, seed):
     """yield (source-label, document) - the union of the other checks' enumerated corpora"""
     for d in near_closed_docs(tier):
         yield "NEARCLOSED", d
+    from mc.gen import big
+
+    for label, d in big.all_docs(tier):
+        yield "BIG", d
     for d in defs_order_docs(tier):
         yield "DEFS", d
     base = G.kinds("base")
@@ -198,6 +202,8 @@ def cases(tier, seed):
             nds = [3, 0, 6] if tier == "quick" else [0, 1, 2, 3, 4, 5, 6]
         if src == "NEARCLOSED":
             nds = [0, 1, 2, 3, 4, 5, 6]
+        if src == "BIG":
+            nds = [0, 1, 3, 6]
         if src == "G1g":
             # kept / flattened groups: opacity products meet the coarsest and the default rounding
             nds = [0, 1, 3] if tier == "quick" else [0, 1, 2, 3, 4, 5, 6]
